@@ -2,6 +2,7 @@ import IstioModel.Common.Wire
 import IstioModel.C12.Spec
 import IstioModel.C12.VHosts
 import IstioModel.C12.MeshSpec
+import IstioModel.C12.MeshModel
 import IstioModel.C12.Gateway
 
 /-! Line-protocol driver for C12 (streams `routes`, `requests`, `vhosts`). See harness/c12. -/
@@ -95,10 +96,14 @@ def showPath : PathSpec → String
   | .safeRegex r => "re:" ++ enc r
   | .pathSepPrefix p => "psp:" ++ enc p
 
+def showMeta (mm : MetaMatcher) : String :=
+  enc (".".intercalate mm.path) ++ "!" ++ showSpec mm.spec ++ "!" ++ boolTok mm.invert
+
 def showRoute (r : Route) : String :=
   "R[" ++ enc r.name ++ "|" ++ showPath r.match.path ++ "|cs=" ++ boolTok r.match.caseSensitive
     ++ "|H:" ++ joinOrDash (r.match.headers.map showHeader)
     ++ "|Q:" ++ joinOrDash (r.match.query.map showQuery)
+    ++ (if r.match.metadata.isEmpty then "" else "|M:" ++ joinOrDash (r.match.metadata.map showMeta))
     ++ "|A:" ++ showAction r.action ++ "]"
 
 def showRoutes (rs : List Route) : String :=
@@ -134,8 +139,18 @@ def addMatch (vs : VirtualService) (m : HTTPMatch) : VirtualService :=
   | [] => vs
   | r :: rest => { vs with http := (({ r with matchBlocks := r.matchBlocks ++ [m] }) :: rest).reverse }
 
+/-- Claims token: pairs (claim path joined by `.`, value); a repeated path is a list claim. -/
+def decClaims (t : String) : List (List String × List String) :=
+  (decPairs t).foldl (fun acc kv =>
+    let p := kv.1.splitOn "."
+    if acc.any (fun e => e.1 == p) then acc.map (fun e => if e.1 == p then (e.1, e.2 ++ [kv.2]) else e)
+    else acc ++ [(p, [kv.2])]) []
+
 def decReq (f : List String) : Option (Request × Regex) :=
   match f with
+  | [p, q, m, a, s, h, t, cl] =>
+    some ({ path := dec p, query := decPairs q, method := dec m, authority := dec a, scheme := dec s, headers := decPairs h,
+            claims := decClaims cl }, tableRe (decPairs t))
   | [p, q, m, a, s, h, t] =>
     some ({ path := dec p, query := decPairs q, method := dec m, authority := dec a, scheme := dec s, headers := decPairs h },
           tableRe (decPairs t))
@@ -193,17 +208,19 @@ def stepD (d : DState) (toks : List String) : DState × String :=
                           passthroughKube := tokBool pt, addresses := if dec addr == "" then [] else [dec addr] }
     let r := generateVirtualHostDomains svc lp.toNat! port.toNat! (dec pd) (tokBool proxyless)
     (d, "D:" ++ encList r.1 ++ " A:" ++ encList r.2)
-  | ["known", l] => ({ d with vh := { d.vh with known := decList l } }, "ok")
+  | ["known", l] => ({ d with vh := { d.vh with known := decList l, inputs := [] } }, "ok")
   | ["vh", name, doms, alts] =>
+    -- one more call of the buildVirtualHost closure: the whole sequence is re-run through `buildVHosts`
     let v := d.vh
-    let n := dec name
-    if v.names.contains n then (d, "dup-name") else
-    let r := dedupeLoop (decList alts) v.known (decList doms) v.vhd
-    let v' := { v with names := n :: v.names, vhd := r.2 }
-    if r.1.isEmpty then ({ d with vh := v' }, "empty")
-    else ({ d with vh := { v' with vhosts := v'.vhosts ++ [{ name := n, domains := r.1, routes := [] }] } }, "kept:" ++ encList r.1)
+    let i : VHInput := { name := dec name, domains := decList doms, altHosts := decList alts }
+    let before := buildVHosts v.known v.inputs [] []
+    let after := buildVHosts v.known (v.inputs ++ [i]) [] []
+    let d' := { d with vh := { v with inputs := v.inputs ++ [i] } }
+    if v.inputs.any (fun x => x.name == i.name) then (d', "dup-name")
+    else if after.length == before.length then (d', "empty")
+    else (d', "kept:" ++ encList ((after.getLast?.map (·.domains)).getD []))
   | ["sel", a] =>
-    match selectVHost d.vh.vhosts (dec a) with
+    match selectVHost (buildVHosts d.vh.known d.vh.inputs [] []) (dec a) with
     | some v => (d, enc v.name)
     | none => (d, "none")
   | ["msh", needle, sp, wc] =>
@@ -254,7 +271,13 @@ def stepD (d : DState) (toks : List String) : DState × String :=
   | "rreq" :: f =>
     match decReq f with
     | none => (d, "bad-op")
-    | some (req, re) => if !d.mesh.built then (d, "no-rds") else (d, showDecision (meshSpec re d.ctx d.mesh req))
+    | some (req, re) =>
+      if !d.mesh.built then (d, "no-rds") else
+      -- the composed model of the route configuration under the Lean Envoy semantics, checked against the SPEC
+      let mo := evalRouteConfig re (sidecarRDS d.ctx d.mesh) req
+      let sp := meshSpec re d.ctx d.mesh req
+      let cert := if rdsCert d.ctx d.mesh then "" else " !cert"   -- hypotheses of sidecar_rds_correct
+      (d, showDecision mo ++ (if sp == mo then "" else " !spec:" ++ showDecision sp) ++ cert)
   | ["acc"] => ({ d with vh := { d.vh with acc := d.vh.acc ++ compile d.ctx d.vs } }, "ok")
   | ["sortv"] => (d, showRoutes (sortVHostRoutes d.vh.acc))
   | "sreq" :: f =>
